@@ -468,10 +468,10 @@ def bb_leg(tier, seed, tag):
 def mc(tier):
     out = {}
     spec_h = tree_hash([os.path.join(SPEC, "Incremental.tla")])
-    cfgs = [("inc_p2", {"Paths": "{p1, p2}", "NT": 1, "MaxM": 1, "MaxC": 1, "MaxOps": 2, "MaxInv": 2, "RecordBefore": True, "GuardNoInput": True}),
-            ("inc_t2", {"Paths": "{p1, p2}", "NT": 2, "MaxM": 1, "MaxC": 1, "MaxOps": 1, "MaxInv": 2, "RecordBefore": True, "GuardNoInput": True})]
+    cfgs = [("inc_p2", {"Paths": "{p1, p2}", "NT": 1, "MaxM": 1, "MaxC": 1, "MaxOps": 2, "MaxInv": 2, "RecordBefore": True, "GuardNoInput": True, "Foreigns": True}),
+            ("inc_t2", {"Paths": "{p1, p2}", "NT": 2, "MaxM": 1, "MaxC": 1, "MaxOps": 1, "MaxInv": 2, "RecordBefore": True, "GuardNoInput": True, "Foreigns": False})]
     if tier == "thorough":
-        cfgs.append(("inc_p3", {"Paths": "{p1, p2, p3}", "NT": 1, "MaxM": 1, "MaxC": 1, "MaxOps": 2, "MaxInv": 2, "RecordBefore": True, "GuardNoInput": True}))
+        cfgs.append(("inc_p3", {"Paths": "{p1, p2, p3}", "NT": 1, "MaxM": 1, "MaxC": 1, "MaxOps": 2, "MaxInv": 2, "RecordBefore": True, "GuardNoInput": True, "Foreigns": True}))
     invs = ["TypeOK", "FullOnlyFromSuccess", "SkipMeansUpToDate", "SkipComplete", "NoInputNoRecord"]
     for name, consts in cfgs:
         key = hashlib.sha256(json.dumps([spec_h, name, consts, invs], sort_keys=True).encode()).hexdigest()[:16]
